@@ -58,6 +58,12 @@ class C09(framework.PropertyCheck):
                 # exponents 0 and 1 at every width, far beyond what a double holds
                 base = rng.choice([1, -1]) * (rng.getrandbits(rng.choice([64, 300, 1030, 1100, 2100])) | 1)
                 yield {'k': k, 'op': '**', 'args': [base, rng.choice([0, 0, 1, 2])]}
+            elif k == 'exp' and rng.random() < 0.3:
+                # the same power with a float base first (a rounded result), then with the integer base: exact
+                b, e = rng.choice([3, 7, 10, 13]), rng.randint(35, 70)
+                yield {'k': k, 'op': '**', 'args': [float(b), e], 'float': True}
+                yield {'k': k, 'op': '**', 'args': [b, float(e)], 'float': True}
+                yield {'k': k, 'op': '**', 'args': [b, e]}
             elif k == 'exp':
                 yield {'k': k, 'op': '**', 'args': [rng.choice([2, 3, 10, -3, -2, 7, self.big(rng) % 1000, -(self.big(rng) % 50)]), rng.randint(0, 90)]}
             elif k == 'cmp':
@@ -82,8 +88,14 @@ class C09(framework.PropertyCheck):
                 r = rng.random()
                 v = (1 << (w - 1)) if r < 0.3 else (1 << w) - 1 if r < 0.45 else 0 if r < 0.55 else rng.getrandbits(w)
                 c = {'k': k, 'w': w, 'v': v}
-                if rng.random() < 0.3:
+                r2 = rng.random()
+                if r2 < 0.3:
                     c['hist'] = True
+                elif r2 < 0.55:
+                    # a signal outside every scope whose name is an everyday word (a library form must not capture it)
+                    # (not `signal`: that is the macro's own parameter, and an unresolved name denotes a signal before a variable —
+                    # the language's rule, see C07's quantifier; observation recorded in DESIGN §16.8)
+                    c['rootname'] = rng.choice(['width', 'bits', 'tmp', 'res', 'value', 'w', 'x', 'n', 'sig'])
                 yield c
             elif k == 'str':
                 v = self.big(rng)
@@ -119,6 +131,8 @@ class C09(framework.PropertyCheck):
             a = c['args']
             op = c['op']
             txt = '(' + op + ' ' + ' '.join(map(str, a)) + ')'
+            if c.get('float'):
+                return [('eval', 'eor', txt)], []
             if op == '+':
                 want = I(sum(a))
             elif op == '-':
@@ -168,6 +182,12 @@ class C09(framework.PropertyCheck):
                          ('loadvcd', 't0', self._vcd(w, v)),
                          ('eval', 'eor', f'(list (bits->sint "{bits}") (signed top.s) top.s (signal-width "top.s"))'), ('eval', 'eor', '(sd9)')],
                         [(2, want_a), (5, want), (6, I(sint(bits)))])
+            if c.get('rootname'):
+                nm = c['rootname']
+                vf = {'header': [['var', 'wire', w, '!', nm, None], ['scope', 'module', 'top'], ['var', 'wire', w, '!', 's', None], ['upscope']],
+                      'dump': [['time', 0], ['vector', bin(v)[2:], '!'], ['time', 5], ['vector', bin(v ^ 5)[2:], '!']]}
+                return ([('loadvcd', 't0', gen_trace.render(vf)),
+                         ('eval', 'eor', f'(list (bits->sint "{bits}") (signed {nm}) {nm} (signal-width "{nm}"))')], [(1, want)])
             return ([('loadvcd', 't0', self._vcd(w, v)),
                      ('eval', 'eor', f'(list (bits->sint "{bits}") (signed top.s) top.s (signal-width "top.s"))')], [(1, want)])
         if k == 'str' and c.get('text'):
@@ -216,6 +236,7 @@ class C09(framework.PropertyCheck):
         for k in ('x', 'v', 'add'):
             if k in case:
                 vals.append(case[k])
+        vals = [v for v in vals if isinstance(v, int)]
         return any(v < 0 or v.bit_length() > 64 for v in vals) or case.get('w', 0) > 64 or case.get('h', 0) > 64
 
     def classify(self, case):
